@@ -49,6 +49,7 @@ def main():
             res[c] = {'exit': rr.returncode, 'summary': [l for l in rr.stdout.split('\n') if l.startswith(c + ' ')][-1:] , 'wall': round(time.time() - t0, 1)}
         out.append({'commit': h, 'subject': subj, 'checks': res, 'detected': all(v['exit'] == 1 for v in res.values())})
         print(h, subj[:60], {c: v['exit'] for c, v in res.items()}, flush=True)
+        subprocess.run(['python3', os.path.join(VERIF, 'bin', 'vbuild.py'), '--drop'], env=dict(os.environ, VERIF_REPO=scratch))
         shutil.rmtree(scratch, ignore_errors=True)
     json.dump(out, open(os.path.join(VERIF, 'evidence', 'revert_demo.json'), 'w'), indent=1)
     print('all detected:', all(o.get('detected') for o in out))
